@@ -87,7 +87,10 @@ def run(tier):
         chk.drift({"what": "schedules with writes that found no yield point in the real code", "count": unperformed})
         if unperformed > len(events) // 2:
             raise vp.Broken("most schedules could not be replayed: RLBOX_VERIF_YIELD hooks missing in /repo?")
-    chk.count(evaluations=len(events), distinct=nsched, traces=len(events))
+    # hook-free adversary: single cells (values, pointers, a struct field) rewritten after every read
+    import fetchcommon as fc
+    nf, cf = fc.judge(chk, wd, "c09", "C09", ("wasm32", "ilp64", "lp16"))
+    chk.count(evaluations=len(events) + nf, distinct=nsched + len(cf), traces=len(events))
     for ev in events[100:102]:
         chk.sample(ev)
     chk.cov["schedules"] = nsched
@@ -95,8 +98,9 @@ def run(tier):
     chk.cov["exhaustive_scope"] = "every interleaving of the copier's steps with <= %d adversary writes over %d source cells " \
                                   "and 3 values, for the variants string/unique_ptr, string/std::string, range (short, long), " \
                                   "array, struct, copy_memory_or_deny_access; plus 4 runs in which the source POINTER lives in sandbox " \
-                                  "memory and is redirected during RLBox's range check" % (w, n)
-    chk.assumptions += ["the adversary acts only at the hook points (between RLBox's own reads of sandbox memory)",
+                                  "memory and is redirected during RLBox's range check; plus copy_and_verify / copy_and_verify_address / copy_and_verify_buffer_address / UNSAFE_unverified on " \
+                                  "single cells that are rewritten after every read (no hook: page protection)" % (w, n)
+    chk.assumptions += ["in the schedule replays the adversary acts only at the hook points (between RLBox's own reads of sandbox memory)",
                         "strings are terminated inside the region when the call starts (the unterminated case is D17/C10)"]
     return chk.finish(rule="one evaluation = one replayed schedule on one real variant judged by TLC (CopyAllowed); "
                            "distinct_nontrivial = distinct schedules enumerated by TLC")
